@@ -155,6 +155,9 @@ def check_tree(tree, what, fails):
     from malt.pyct import parser
     stats = {}
     roots = list(tree) if isinstance(tree, (list, tuple)) else [tree]
+    if len(roots) == 1 and isinstance(roots[0], ast.expr):
+        # a lambda entity: transform_ast returns the Lambda expression itself; judged as an expression statement
+        roots = [ast.Expr(value=roots[0])]
     dups, nn = duplicate_nodes(roots)
     stats['nodes'] = nn
     if dups:
@@ -259,6 +262,9 @@ def check_api_text(fn, recursive, feats, fails, stats):
         text = f.read()
     lines = text.split('\n')
     tree = ast.parse(text)
+    if conv.__name__ == '<lambda>':
+        stats['api_lambda_entity'] = 1
+        return code
     cands = [n for n in ast.walk(tree) if isinstance(n, ast.FunctionDef) and n.name == conv.__name__
              and n.lineno == conv.__code__.co_firstlineno]
     if len(cands) != 1:
@@ -376,7 +382,8 @@ def run_case(mod, prog_key, source, cfg, want_api, want_lines):
         rec['stats'].update(st)
         try:
             ser = TreeSer(ob.final_tree)
-            rec['tree'] = ct.tostr(ser.sexp)
+            sx = ser.sexp if isinstance(ob.final_tree, ast.stmt) else ['Expr', 0, ser.sexp]
+            rec['tree'] = ct.tostr(sx)
             rec['stats']['kinds'] = dict(ser.kinds)
         except Exception as e:
             fails.append(('final-tree-not-serialisable', repr(e)[:300]))
@@ -445,3 +452,12 @@ def worker(job):
         tempfile.tempdir = old_tmp
         shutil.rmtree(scratch, ignore_errors=True)
     return out
+
+
+if __name__ == '__main__' and '--hashseed-worker' in sys.argv:
+    # re-run a slice in a fresh interpreter with the PYTHONHASHSEED given by the caller (set iteration order feeds the
+    # order of nonlocal declarations / state variables in the generated code)
+    import json
+    sys.path.insert(0, common.REPO)
+    job = json.loads(sys.stdin.read())
+    json.dump(worker(job), sys.stdout)
